@@ -30,6 +30,7 @@ fn main() {
         "sm2ver" => suites::sm2::drive_verify(&mut t, &tier, seed, plan),
         "sm2enc" => suites::sm2::drive_encrypt(&mut t, &tier, seed, plan),
         "sm2dec" => suites::sm2::drive_decrypt_faults(&mut t, &tier, seed, plan),
+        "sm2kex" => suites::sm2::drive_kex(&mut t, &tier, seed, plan),
         "sm4blk" => suites::sm4::drive_block(&mut t, &tier, seed, plan),
         "sm4mode" => suites::sm4::drive_modes(&mut t, &tier, seed),
         _ => {
